@@ -612,18 +612,22 @@ func (w *W) harnessAPI(f *frame, fn *ssa.Function, args []Value, key int, g *Ter
 	case "vNondetInt":
 		v := Var(w.nondetName(f, key, "int"), 64)
 		w.noteNondet(v, pos)
+		w.traceNondet(f, key, g, v, pos)
 		return v, g, true
 	case "vNondetBool":
 		v := Var(w.nondetName(f, key, "bool"), 0)
 		w.noteNondet(v, pos)
+		w.traceNondet(f, key, g, v, pos)
 		return v, g, true
 	case "vNondetUint8":
 		v := Var(w.nondetName(f, key, "u8"), 8)
 		w.noteNondet(v, pos)
+		w.traceNondet(f, key, g, v, pos)
 		return v, g, true
 	case "vNondetString":
 		v := Var(w.nondetName(f, key, "str"), 32)
 		w.noteNondet(v, pos)
+		w.traceNondet(f, key, g, v, pos)
 		return v, g, true
 	case "vNondetRange":
 		// an enumerable choice lo..hi (constant bounds): an ite tree over fresh Booleans, so that it can size allocations
@@ -642,6 +646,7 @@ func (w *W) harnessAPI(f *frame, fn *ssa.Function, args []Value, key int, g *Ter
 			w.nondets = append(w.nondets, v)
 			w.nondetNames[v.id] = name
 		}
+		w.traceNondet(f, key, g, v, pos)
 		return v, g, true
 	case "vLibGoroutinesAlive":
 		if f.finalGuard == nil {
@@ -715,6 +720,15 @@ func (w *W) ndName(v *Term) string {
 		return n
 	}
 	return v.name
+}
+
+// traceNondet records when (and whether) a vNondet call is executed, so that a replay hands out the values
+// in the order the native code asks for them.
+func (w *W) traceNondet(f *frame, key int, g *Term, v *Term, pos token.Pos) {
+	if f.finalGuard != nil || f.t.alone {
+		return
+	}
+	w.op(f.t, mkKey(key, -21, 0, 0), g, opSpec{pos: pos, kind: "nondet", traced: true, nondet: v, effect: func(exec *Term) Value { return nil }})
 }
 
 func (w *W) noteNondet(v *Term, pos token.Pos) {
